@@ -51,15 +51,19 @@ bool CronAlarm::initialize(const std::string &cron_expr_str)
   }
 
   const char *error_str = nullptr;
-  memset(sp_cron_expr_, 0, sizeof(cron_expr));
+  //! 先解析到临时对象，成功后再覆盖：否则非法表达式会把原来有效的配置冲掉一半，
+  //! 而 state_ 仍是 kInited，随后 enable() 会按残缺的表达式定时
+  cron_expr tmp_cron_expr;
+  memset(&tmp_cron_expr, 0, sizeof(cron_expr));
 
   // check validity of cron str
-  cron_parse_expr(cron_expr_str.c_str(), static_cast<cron_expr *>(sp_cron_expr_), &error_str);
+  cron_parse_expr(cron_expr_str.c_str(), &tmp_cron_expr, &error_str);
   if (error_str != nullptr) { // Invalid expression.
     LogWarn("cron_expr error: %s", error_str);
     return false;
   }
 
+  memcpy(sp_cron_expr_, &tmp_cron_expr, sizeof(cron_expr));
   state_ = State::kInited;
   return true;
 }
